@@ -191,7 +191,16 @@ func TestWorker(t *testing.T) {
 				perClass[rc.Class]++
 				// keep the shortest few per class
 				if perClass[rc.Class] <= 3 && len(out.Failures) < maxFail {
-					out.Failures = append(out.Failures, toCase(f, tier, rc))
+					c := toCase(f, tier, rc)
+					out.Failures = append(out.Failures, c)
+					// also kept aside at once, in case a later run stalls
+					if outPath != "" {
+						if ff, err := os.OpenFile(outPath+".fail", os.O_APPEND|os.O_CREATE|os.O_WRONLY, 0o644); err == nil {
+							b, _ := json.Marshal(c)
+							ff.Write(append(b, '\n'))
+							ff.Close()
+						}
+					}
 				}
 			}
 		}
